@@ -202,7 +202,8 @@ pub fn run(ctx: &Ctx) -> ! {
     let mut uni_one = Universe::sverif();
     uni_one.datasets.truncate(1);
     let stats = corpus::drive(ctx, &uni_one, &cfg, &|cq| check_query(ctx, &uni, cq, &counters, &samples, &sigs), &|_| {}, &|_, _| {});
-    let cfg_v = corpus::var_reuse_cfg(&uni);
+    let mut cfg_v = corpus::var_reuse_cfg(&uni);
+    cfg_v.stream_share = 1.0;
     let stats_v = corpus::drive(ctx, &uni_one, &cfg_v, &|cq| check_query(ctx, &uni, cq, &counters, &samples, &sigs), &|_| {}, &|_, _| {});
     let mut c = cov();
     c.insert("corpus_variable_reuse".into(), stats_v.to_json());
